@@ -1539,6 +1539,11 @@ func Run(r *sim.R, prop string, maxReads int) {
 		e.envRefs()
 		return
 	}
+	if (prop == "C02" || prop == "C08") && r.T.Chance(1, 24, "list-text-with-reference-lookalikes") {
+		r.NextStep()
+		e.spliceData()
+		return
+	}
 	e.Setup()
 	n := 1 + r.T.Choose(maxReads, "n-reads")
 	for i := 0; i < n; i++ {
